@@ -35,6 +35,22 @@ theorem sequential (a b : List Change) (f : FileM) (m : Bool) :
     | ok f' k => simp only [applyChangesCli, ha]; exact ih f' true
     | fail e => simp [applyChangesCli, ha]
 
+/-- **A change that matches nothing may stand anywhere.** A change that does not match the file as the changes before it
+leave it - an unrelated patch given along with the others, in front, behind or in between - does not disturb the run: the
+result, the "matched" flag and the failure, if any, are those of the run without it. -/
+theorem a_change_that_does_not_match_may_stand_anywhere (c : Change) (a b : List Change) (f : FileM) (m : Bool)
+    (hc : fileMatch c (applyChangesCli a f m).1 = none) :
+    applyChangesCli (a ++ c :: b) f m = applyChangesCli (a ++ b) f m := by
+  rw [sequential, sequential a b]
+  cases h : applyChangesCli a f m with
+  | mk f' r =>
+    obtain ⟨m', e⟩ := r
+    rw [h] at hc
+    have hn : applyChange c f' = .noMatch := by simp [applyChange, hc]
+    cases e with
+    | none => simp [applyChangesCli, hn]
+    | some e => rfl
+
 /-! ### one run per change, each starting from the file the previous run printed -/
 
 /-- a chain of runs: one change per run; `rt` is what printing the result and parsing it again does to the tree
